@@ -547,12 +547,18 @@ class TextXVisitor(RRELVisitor):
                             is_ordered_choice = isinstance(rule, OrderedChoice)
                             inh_added = False
                             for r in rule.nodes:
-                                if isinstance(r, (Not, And)):
-                                    # Syntactic predicates match nothing, so
-                                    # what they refer to is never the result
-                                    # of this rule.
+                                if isinstance(r, (Not, And)) or r.suppress:
+                                    # Syntactic predicates match nothing and
+                                    # suppressed matches are dropped, so what
+                                    # they refer to is never the result of
+                                    # this rule.
                                     continue
-                                inh_added |= _add_reffered_classes(r, inh_by)
+                                added = _add_reffered_classes(r, inh_by)
+                                if isinstance(r, (Optional, ZeroOrMore)):
+                                    # May match nothing: what follows can be
+                                    # the result as well.
+                                    added = False
+                                inh_added |= added
                                 if inh_added and not is_ordered_choice:
                                     # If not ordered choice we should get out
                                     # early as the rest of the rule shouldn't
